@@ -845,8 +845,8 @@ _SWITCH_ARMS = ("\tswitch {\n\tcase verifierOptions.RevocationCodeSigningValidat
 _B_OK = "\tbuiltin, err := " + _DEF + "\n\tif err != nil {\n\t\treturn err\n\t}\n"
 # the whole choice is made by a helper that returns the chosen pair; the caller stores both
 def _choose(ret_default="\treturn builtin, nil, nil\n", caller_check="\tif err != nil {\n\t\treturn err\n\t}\n", cs_field='revocationCodeSigningValidator',
-            client_arm="\tif given.RevocationClient != nil {\n\t\treturn nil, given.RevocationClient, nil\n\t}\n", on_err="\t\treturn nil, nil, err\n"):
-    return [(V, _SR_TAIL, "\tchosen, legacy, err := chooseCodeSigningRevocation(verifierOptions)\n" + caller_check +
+            client_arm="\tif given.RevocationClient != nil {\n\t\treturn nil, given.RevocationClient, nil\n\t}\n", on_err="\t\treturn nil, nil, err\n", arg='verifierOptions'):
+    return [(V, _SR_TAIL, "\tchosen, legacy, err := chooseCodeSigningRevocation(" + arg + ")\n" + caller_check +
              "\tv.%s = chosen\n\tv.revocationClient = legacy\n\treturn nil\n}\n\n" % cs_field +
              "func chooseCodeSigningRevocation(given VerifierOptions) (revocation.Validator, revocation.Revocation, error) {\n" +
              "\tif given.RevocationCodeSigningValidator != nil {\n\t\treturn given.RevocationCodeSigningValidator, nil, nil\n\t}\n" + client_arm +
@@ -912,4 +912,10 @@ VARIANTS += [
  dict(name='setter-bool-helper-says-true-without-storing-client', expect='flagged(constructor/)',
       edits=[(e[0], e[1], e[2].replace("\t\tv.revocationClient = given.RevocationClient\n", "")) for e in _adopt()]),
  dict(name='setter-bool-helper-result-inverted', expect='flagged(constructor/)', edits=_adopt(test="!v.adoptCallerRevocation(verifierOptions)")),
+ # the default yields to the caller's choice inside the choosing helper (constructor/default-yields sees the helper's nil tests)
+ dict(name='setter-choice-helper-default-next-to-caller-client', expect='flagged(constructor/default-yields)',
+      edits=_choose(client_arm='', ret_default="\tif given.RevocationClient != nil {\n\t\treturn builtin, given.RevocationClient, nil\n\t}\n\treturn builtin, nil, nil\n")),
+ dict(name='setter-choice-helper-handed-partial-options', expect='flagged(constructor/options-forwarded)',
+      edits=_choose(arg='VerifierOptions{RevocationCodeSigningValidator: verifierOptions.RevocationCodeSigningValidator}')),
+ dict(name='setter-choice-helper-handed-empty-options', expect='flagged(constructor/)', edits=_choose(arg='VerifierOptions{}')),
 ]
